@@ -21,14 +21,13 @@ use std::io::Write as _;
 use std::panic::{self, AssertUnwindSafe};
 use std::sync::{Arc, Mutex};
 
-use bitcoin::hashes::Hash as _;
 use bitcoin::secp256k1::PublicKey;
 use bitcoin::{OutPoint as BOutPoint, Transaction, Txid};
 
 use lightning::chain::chainmonitor::Persist;
-use lightning::chain::channelmonitor::verif_hooks_fwd::update_step_details;
+use lightning::chain::channelmonitor::verif_hooks_fwd::{monitor_htlc_view, update_step_details};
 use lightning::chain::channelmonitor::{ChannelMonitor, ChannelMonitorUpdate};
-use lightning::chain::{BlockLocator, ChannelMonitorUpdateStatus};
+use lightning::chain::{BlockLocator, ChannelMonitorUpdateStatus, Confirm};
 use lightning::events::{ClosureReason, Event, HTLCHandlingFailureType};
 use lightning::ln::channelmanager::{ChannelManagerReadArgs, PaymentId};
 use lightning::ln::functional_test_utils::*;
@@ -41,7 +40,8 @@ use lightning::util::config::{MaxDustHTLCExposure, UserConfig};
 use lightning::util::persist::MonitorName;
 use lightning::util::ser::{ReadableArgs, Writeable};
 use lightning::util::test_channel_signer::TestChannelSigner;
-use lightning::util::test_utils::{self, TestChainMonitor};
+use lightning::util::test_utils::TestChainMonitor;
+use lightning::get_route_and_payment_hash;
 
 use verif_harness::Rng;
 
@@ -92,6 +92,9 @@ struct PState {
 	inflight: HashMap<ChannelId, usize>,
 	snaps: HashMap<ChannelId, Vec<Snap>>,
 	names: HashMap<ChannelId, &'static str>,
+	hash: Option<PaymentHash>,
+	/// id of an upstream update carrying the payment preimage that is still in flight
+	u_preimage_pending: Option<u64>,
 }
 struct ScriptedPersister {
 	active: bool,
@@ -109,11 +112,29 @@ impl ScriptedPersister {
 				inflight: HashMap::new(),
 				snaps: HashMap::new(),
 				names: HashMap::new(),
+				hash: None,
+				u_preimage_pending: None,
 			}),
 			trace,
 		}
 	}
 }
+/// What the monitor remembers about the scenario's payment: `o` 0 = not among the outbound HTLCs a
+/// restart could still resolve, 1 = there without a preimage, 2 = there with the preimage; `i` = the
+/// counterparty's current/previous commitment still carries it as an HTLC offered to us; `p` = its
+/// preimage is stored.
+fn view_of(data: &ChannelMonitor<TestChannelSigner>, hash: &Option<PaymentHash>) -> String {
+	let h = match hash {
+		Some(h) => *h,
+		None => return "o0i0p0".to_string(),
+	};
+	let (outb, inb, pre) = monitor_htlc_view(data);
+	let o = outb.iter().filter(|(x, _)| *x == h).map(|(_, p)| if *p { 2 } else { 1 }).max().unwrap_or(0);
+	let i = if inb.contains(&h) { 1 } else { 0 };
+	let p = if pre.contains(&h) { 1 } else { 0 };
+	format!("o{}i{}p{}", o, i, p)
+}
+
 impl Persist<TestChannelSigner> for ScriptedPersister {
 	fn persist_new_channel(
 		&self, _name: MonitorName, data: &ChannelMonitor<TestChannelSigner>,
@@ -164,14 +185,18 @@ impl Persist<TestChannelSigner> for ScriptedPersister {
 		if let Some(u) = update {
 			if in_progress {
 				*st.inflight.entry(chan).or_insert(0) += 1;
+				if name == "U" && update_step_details(u).iter().any(|d| d.starts_with("PaymentPreimage")) {
+					st.u_preimage_pending = Some(u.update_id);
+				}
 			}
 			self.trace.lock().unwrap().rec(
 				"PERSIST",
 				format!(
-					"chan={} id={} ret={} steps={}",
+					"chan={} id={} ret={} view={} steps={}",
 					name,
 					u.update_id,
 					if in_progress { "P" } else { "C" },
+					view_of(data, &st.hash),
 					update_step_details(u).join("|")
 				),
 			);
@@ -179,10 +204,11 @@ impl Persist<TestChannelSigner> for ScriptedPersister {
 			self.trace.lock().unwrap().rec(
 				"PERSISTFULL",
 				format!(
-					"chan={} id={} ret={}",
+					"chan={} id={} ret={} view={}",
 					name,
 					data.get_latest_update_id(),
-					if in_progress { "P" } else { "C" }
+					if in_progress { "P" } else { "C" },
+					view_of(data, &st.hash)
 				),
 			);
 		}
@@ -225,6 +251,7 @@ struct Params {
 	fee_skew: i64,
 	cltv_skew: i64,
 	sync_sched: bool,
+	focus: bool,
 }
 
 fn gen_params(rng: &mut Rng) -> Params {
@@ -257,13 +284,14 @@ fn gen_params(rng: &mut Rng) -> Params {
 		p_reload: if chaos >= 2 { [0, 2, 4][rng.below(3) as usize] } else { 0 },
 		max_reloads: 1 + rng.below(2) as u32,
 		p_mgr_persist: [5, 15, 40][rng.below(3) as usize],
-		steps: 40 + rng.below(120),
+		steps: 100 + rng.below(300),
 		prop: [0, 1, 1000, 10_000, 123_456][rng.below(5) as usize],
 		base: [0, 1, 1000, 5000][rng.below(4) as usize],
 		delta: [48, 72, 144][rng.below(3) as usize],
 		fee_skew,
 		cltv_skew,
 		sync_sched: chaos == 0,
+		focus: rng.below(2) == 0,
 	}
 }
 
@@ -338,6 +366,7 @@ struct World<'a> {
 	seen_txids: HashSet<Txid>,
 	confirmed: HashSet<Txid>,
 	spent: HashSet<BOutPoint>,
+	dropped: HashSet<Txid>,
 	known_outputs: HashMap<BOutPoint, u64>,
 	c_silent: bool,
 	preimage: PaymentPreimage,
@@ -409,6 +438,9 @@ impl<'a> World<'a> {
 					}
 				}
 			}
+			if chan == self.chan_u && st.u_preimage_pending == Some(id) {
+				st.u_preimage_pending = None;
+			}
 		}
 		let _ = self.nodes[B].chain_monitor.chain_monitor.channel_monitor_updated(chan, id);
 		self.sync_inflight();
@@ -420,7 +452,7 @@ impl<'a> World<'a> {
 		let evs = self.nodes[n].node.get_and_clear_pending_msg_events();
 		self.sync_inflight();
 		for ev in evs {
-			let mut push = |w: &mut World<'a>, to: PublicKey, m: Msg| {
+			let push = |w: &mut World<'a>, to: PublicKey, m: Msg| {
 				if let Some(t) = w.idx_of(&to) {
 					if n == C && w.c_silent {
 						return;
@@ -572,15 +604,26 @@ impl<'a> World<'a> {
 			for ti in pool {
 				let tx = &ti.tx;
 				let lt = tx.lock_time.to_consensus_u32();
-				let final_ = lt < 500_000_000 && lt < next_h
+				let final_ = lt >= 500_000_000
+					|| lt < next_h
 					|| tx.input.iter().all(|i| i.sequence == bitcoin::Sequence::MAX);
 				let conflict = tx.input.iter().any(|i| self.spent.contains(&i.previous_output));
 				let parents_ok = tx.input.iter().all(|i| {
 					self.confirmed.contains(&i.previous_output.txid)
 						|| in_block.contains(&i.previous_output.txid)
 				});
-				if conflict {
-					self.rec("TXDROP", format!("txid={} why=conflict", short(&tx.compute_txid()[..])));
+				let orphan = tx.input.iter().any(|i| self.dropped.contains(&i.previous_output.txid));
+				if conflict || orphan {
+					self.dropped.insert(tx.compute_txid());
+					self.rec(
+						"TXDROP",
+						format!(
+							"txid={} why={}",
+							short(&tx.compute_txid()[..]),
+							if conflict { "conflict" } else { "orphan" }
+						),
+					);
+					progressed = true;
 					continue;
 				}
 				if final_ && parents_ok {
@@ -790,7 +833,7 @@ impl<'a> World<'a> {
 						NAMES[n],
 						total_fee_earned_msat.map(|x| x as i64).unwrap_or(-1),
 						claim_from_onchain_tx,
-						outbound_amount_forwarded_msat.map(|x| x as i64).unwrap_or(-1)
+						*outbound_amount_forwarded_msat as i64
 					),
 				),
 				Event::HTLCHandlingFailed { failure_type, .. } => {
@@ -924,6 +967,17 @@ fn reload_b<'a>(w: &mut World<'a>, rng: &mut Rng, node_cfgs: &'a Vec<NodeCfg<'a>
 			},
 		}
 	}
+	// bring every monitor to the chain tip, as a node does at startup before it resumes
+	let blocks: Vec<(bitcoin::Block, u32)> = w.nodes[B].blocks.lock().unwrap().clone();
+	for m in monitors.iter() {
+		let h0 = m.current_best_block().height;
+		for (blk, h) in blocks.iter() {
+			if *h > h0 {
+				let txdata: Vec<_> = blk.txdata.iter().enumerate().collect();
+				m.block_connected(&blk.header, &txdata, *h, cfg.tx_broadcaster, cfg.fee_estimator, cfg.logger);
+			}
+		}
+	}
 	let mgr_bytes = w.mgr_snapshot.clone();
 	let mut rd = &mgr_bytes[..];
 	let new_mgr = {
@@ -959,9 +1013,11 @@ fn reload_b<'a>(w: &mut World<'a>, rng: &mut Rng, node_cfgs: &'a Vec<NodeCfg<'a>
 		}
 	};
 	let new_mgr: &'a TestChannelManager<'a, 'a> = Box::leak(Box::new(new_mgr));
+	let mgr_h0 = new_mgr.current_best_block().height;
 	{
 		let mut st = w.persister_b.st.lock().unwrap();
 		st.inflight.clear();
+		st.u_preimage_pending = None;
 		// what is on disk now is exactly the chosen version: later snapshots never landed
 		for (chan, _, pick, _, _) in chosen.iter() {
 			if let Some(s) = st.snaps.get_mut(chan) {
@@ -986,6 +1042,13 @@ fn reload_b<'a>(w: &mut World<'a>, rng: &mut Rng, node_cfgs: &'a Vec<NodeCfg<'a>
 	w.nodes[B].onion_messenger.set_async_payments_handler(new_mgr);
 	w.reloads += 1;
 	// the freshly loaded manager is what a later crash would find unless it is written again
+	for (blk, h) in blocks.iter() {
+		if *h > mgr_h0 {
+			let txdata: Vec<_> = blk.txdata.iter().enumerate().collect();
+			new_mgr.transactions_confirmed(&blk.header, &txdata, *h);
+			new_mgr.best_block_updated(&blk.header, *h);
+		}
+	}
 	w.nodes[B].node.test_process_background_events();
 	w.sync_inflight();
 	w.after_action();
@@ -1078,6 +1141,7 @@ fn run_scenario(seed: u64, index: u64, trace: TraceRef) {
 		seen_txids: HashSet::new(),
 		confirmed,
 		spent: HashSet::new(),
+		dropped: HashSet::new(),
 		known_outputs,
 		c_silent: false,
 		preimage,
@@ -1102,7 +1166,7 @@ fn run_scenario(seed: u64, index: u64, trace: TraceRef) {
 			w.rec(
 				"CHAN",
 				format!(
-					"name={} prop={} base={} delta={} max_dust={} dust_limit={} scid={}",
+					"name={} prop={} base={} delta={} max_dust={} dust_limit={} scid={} funding={}",
 					w.chan_name(&c.channel_id),
 					cc.forwarding_fee_proportional_millionths,
 					cc.forwarding_fee_base_msat,
@@ -1112,7 +1176,10 @@ fn run_scenario(seed: u64, index: u64, trace: TraceRef) {
 						MaxDustHTLCExposure::FeeRateMultiplier(x) => x * 253,
 					},
 					354,
-					c.short_channel_id.unwrap_or(0)
+					c.short_channel_id.unwrap_or(0),
+					c.funding_txo
+						.map(|o| format!("{}:{}", short(&o.txid[..]), o.index))
+						.unwrap_or_default()
 				),
 			);
 		}
@@ -1120,7 +1187,11 @@ fn run_scenario(seed: u64, index: u64, trace: TraceRef) {
 	let bal0 = w.balance_b();
 	w.rec("BAL0", format!("sat={} detail={}", bal0, w.balances_detail_b()));
 	w.persist_manager();
-	w.persister_b.st.lock().unwrap().force_sync = false;
+	{
+		let mut st = w.persister_b.st.lock().unwrap();
+		st.force_sync = false;
+		st.hash = Some(hash);
+	}
 
 	// the payment
 	w.set_step(1);
@@ -1134,6 +1205,13 @@ fn run_scenario(seed: u64, index: u64, trace: TraceRef) {
 	let a_fc_step = 5 + rng.below(p.steps.max(6) - 5);
 	for step in 2..(2 + p.steps) {
 		w.set_step(step);
+		if w.a_result != "none"
+			&& w.pending_updates_b().is_empty()
+			&& !(0..3).any(|x| (0..3).any(|y| !w.queues[x][y].is_empty()))
+			&& rng.below(3) == 0
+		{
+			break;
+		}
 		if !a_fc_done && step >= a_fc_step {
 			a_fc_done = true;
 			w.rec("AFC", "what=A_force_closes_U".to_string());
@@ -1151,15 +1229,17 @@ fn run_scenario(seed: u64, index: u64, trace: TraceRef) {
 			}
 		}
 		let pend = w.pending_updates_b();
+		let window = w.persister_b.st.lock().unwrap().u_preimage_pending;
+		let in_window = p.focus && window.is_some();
 		if !pend.is_empty() {
-			acts.push((if p.sync_sched { 60 } else { 15 }, 1, 0, 0));
+			acts.push((if p.sync_sched { 60 } else if in_window { 5 } else { 15 }, 1, 0, 0));
 		}
-		acts.push((8, 2, B, 0)); // forwards at B
-		acts.push((4, 2, C, 0));
+		acts.push((12, 2, B, 0)); // forwards at B
+		acts.push((6, 2, C, 0));
 		acts.push((6, 3, A, 0));
-		acts.push((8, 3, B, 0));
-		acts.push((6, 3, C, 0));
-		acts.push((3, 4, 0, 0)); // block
+		acts.push((10, 3, B, 0));
+		acts.push((10, 3, C, 0));
+		acts.push((2, 4, 0, 0)); // block
 		acts.push((p.p_mgr_persist, 5, 0, 0));
 		if p.p_disc > 0 {
 			acts.push((p.p_disc, 6, A, B));
@@ -1171,8 +1251,12 @@ fn run_scenario(seed: u64, index: u64, trace: TraceRef) {
 		if !w.connected[B][C] && !w.c_silent {
 			acts.push((10, 7, B, C));
 		}
-		if p.p_reload > 0 && w.reloads < p.max_reloads {
-			acts.push((p.p_reload, 8, 0, 0));
+		if w.reloads < p.max_reloads {
+			if in_window {
+				acts.push((12, 8, 0, 0));
+			} else if p.p_reload > 0 {
+				acts.push((p.p_reload, 8, 0, 0));
+			}
 		}
 		let total: u64 = acts.iter().map(|a| a.0).sum();
 		let mut r = rng.below(total);
@@ -1187,7 +1271,10 @@ fn run_scenario(seed: u64, index: u64, trace: TraceRef) {
 		match pick.1 {
 			0 => w.deliver(pick.2, pick.3),
 			1 => {
-				let k = rng.below(pend.len() as u64) as usize;
+				let mut k = rng.below(pend.len() as u64) as usize;
+				if in_window && pend.len() > 1 && pend[k].0 == w.chan_u && Some(pend[k].1) == window && rng.below(4) != 0 {
+					k = (k + 1) % pend.len();
+				}
 				let (chan, id) = pend[k];
 				w.complete_update(chan, id);
 				w.after_action();
